@@ -83,6 +83,11 @@ type BlockPipeline struct {
 	wg              sync.WaitGroup
 	mu              sync.Mutex   // protects Start/Stop
 	submitMu        sync.RWMutex // protects Submit against concurrent Stop
+
+	// outstanding counts items accepted by Submit that have not yet been
+	// processed by the apply stage, wherever they currently are (channels,
+	// decode/validate workers, apply runner).
+	outstanding atomic.Int64
 }
 
 // NewBlockPipeline creates a new BlockPipeline using functional options.
@@ -186,6 +191,9 @@ func (p *BlockPipeline) Start(ctx context.Context) error {
 		bufSize, // Deprecated: pendingQueueSize is no longer used (kept for API compatibility)
 	)
 	p.applyRunner.SetMetrics(p.metrics)
+	p.applyRunner.SetOnProcessed(func(n int) {
+		p.outstanding.Add(-int64(n))
+	})
 
 	// Start all stages
 	// Note: p.ctx is derived from the passed ctx via context.WithCancel above
@@ -231,15 +239,20 @@ func (p *BlockPipeline) Submit(ctx context.Context, blockType uint, rawCbor []by
 	item := NewBlockItem(blockType, rawCbor, tip, p.sequenceCounter.Add(1)-1)
 
 	verifPt("submit.afterSeq", item)
+	// Count the item before the send so that it is never invisible to
+	// PendingCount once a worker has taken it from the channel.
+	p.outstanding.Add(1)
 	select {
 	case p.submitChan <- item:
 		p.metrics.RecordSubmit()
 		return nil
 	case <-ctx.Done():
+		p.outstanding.Add(-1)
 		// Context cancelled while waiting - sequence gap is acceptable
 		// because this typically means shutdown.
 		return ctx.Err()
 	case <-p.ctx.Done():
+		p.outstanding.Add(-1)
 		return ErrPipelineStopped
 	}
 }
@@ -314,19 +327,16 @@ func (p *BlockPipeline) Stats() PipelineStats {
 	return p.metrics.Stats()
 }
 
-// PendingCount returns the approximate number of items still being processed.
-// This includes items in inter-stage channels and items buffered in the apply stage.
+// PendingCount returns the number of submitted items still being processed.
+// This includes items in inter-stage channels, items held by decode/validate
+// workers or the apply runner, and items buffered or being applied in the
+// apply stage.
 // Useful for coordinating with rollback operations.
 func (p *BlockPipeline) PendingCount() int {
 	if !p.started.Load() {
 		return 0
 	}
-	channelDepth := len(p.submitChan) + len(p.decodedChan) + len(p.validatedChan)
-	applyPending := 0
-	if p.applyStage != nil {
-		applyPending = p.applyStage.PendingCount()
-	}
-	return channelDepth + applyPending
+	return int(p.outstanding.Load())
 }
 
 // WaitForDrain blocks until all currently submitted items have been processed
